@@ -127,6 +127,75 @@ def reset_state():
         pass
 
 
+_fast = {"root": None, "settings": {}, "files": []}
+
+
+def build_fast(files, opts=None, stage="correlate"):
+    """Tree-level fast path (parse/correlate only): one scratch directory per process, ProjectSettings
+    cached per option set, file list handed to Project directly, pygments highlighting stubbed.
+    Everything that parses and correlates is still the real ford code."""
+    _patch()
+    import ford.fortran_project as fp
+    import ford.sourceform as sf
+    from ford.settings import ProjectSettings
+
+    global FILE_ORDER
+    if _fast["root"] is None:
+        _fast["root"] = new_root()
+    root = _fast["root"]
+    for old in _fast["files"]:
+        with contextlib.suppress(OSError):
+            os.unlink(old)
+    paths = []
+    for rel, text in files.items():
+        p = root / rel
+        p.parent.mkdir(parents=True, exist_ok=True)
+        if isinstance(text, bytes):
+            p.write_bytes(text)
+        else:
+            p.write_text(text)
+        paths.append(p)
+    _fast["files"] = paths
+    o = dict(preprocess=False, parallel=0, search=False, creation_date="DATE", year="2000")
+    o.update(opts or {})
+    key = repr(sorted(o.items(), key=lambda kv: kv[0]))
+    run = Run()
+    run.root = root
+    buf = io.StringIO()
+    cwd = os.getcwd()
+    real_highlight = sf.highlight
+    real_find = fp.find_all_files
+    try:
+        os.chdir(root)
+        sf.highlight = lambda *a, **k: ""
+        order = FILE_ORDER
+        src_paths = sorted(p for p in paths if p.parts[len(root.parts)] == "src")
+        fp.find_all_files = lambda settings: order(list(src_paths)) if order else list(src_paths)
+        with contextlib.redirect_stdout(buf), contextlib.redirect_stderr(buf):
+            try:
+                reset_state()
+                s = _fast["settings"].get(key)
+                if s is None:
+                    s = ProjectSettings(**o)
+                    s.normalise_paths(root)
+                    s.fpp_extensions = []
+                    _fast["settings"][key] = s
+                run.settings = s
+                run.project = fp.Project(s)
+                run.stage_reached = "parse"
+                if stage != "parse":
+                    run.project.correlate()
+                    run.stage_reached = "correlate"
+            except (Exception, SystemExit) as e:  # noqa
+                run.error = e
+    finally:
+        sf.highlight = real_highlight
+        fp.find_all_files = real_find
+        os.chdir(cwd)
+        run.log = buf.getvalue()
+    return run
+
+
 def build(files, opts=None, stage="correlate", proj_body="", root=None, keep=False, settings_hook=None):
     """files: {relative path under the project root: text}. Sources conventionally under src/.
     opts: keyword arguments for ProjectSettings (typed values)."""
